@@ -120,11 +120,34 @@ def coq_project_files():
     return files
 
 
+class coq_lock:
+    """Serialises everything that writes .vo files under coq/ (translator output + make): two checks
+    started at the same time would otherwise compile dependents against half-rebuilt libraries
+    ("inconsistent assumptions over library")."""
+
+    def __init__(self, shared=False):
+        self.shared = shared
+
+    def __enter__(self):
+        import fcntl
+        os.makedirs(COQ, exist_ok=True)
+        self.f = open(os.path.join(COQ, ".build.lock"), "a")
+        # readers of the compiled libraries (property files, case evaluation) share the lock
+        fcntl.flock(self.f, fcntl.LOCK_SH if self.shared else fcntl.LOCK_EX)
+        return self
+
+    def __exit__(self, *a):
+        import fcntl
+        fcntl.flock(self.f, fcntl.LOCK_UN)
+        self.f.close()
+
+
 def coq_generate():
     """Runs the translator: coq/Generated/Tables.v is regenerated from REPO's current source
     (rewritten only when its content changes, so unchanged sources cost no rebuild)."""
-    rc, out, err, _ = sh([sys.executable, os.path.join(VERIF, "tools", "extract.py")], cwd=VERIF, timeout=300,
-                         env={"VERIF_REPO": REPO, "VERIF_COQ": COQ})
+    with coq_lock():
+        rc, out, err, _ = sh([sys.executable, os.path.join(VERIF, "tools", "extract.py")], cwd=VERIF, timeout=300,
+                             env={"VERIF_REPO": REPO, "VERIF_COQ": COQ})
     return rc == 0, (out + err)
 
 
@@ -141,12 +164,21 @@ def coq_modules_of(text):
 def coq_make(jobs=NCPU, timeout=3000, targets=None):
     """Full .vo build (never -vos/-vok) of everything listed in _CoqProject, or of the given
     .vo targets and what they depend on."""
-    if not os.path.exists(os.path.join(COQ, "Makefile")) or \
-            os.path.getmtime(os.path.join(COQ, "Makefile")) < os.path.getmtime(os.path.join(COQ, "_CoqProject")):
-        rc, out, err, _ = sh(["coq_makefile", "-f", "_CoqProject", "-o", "Makefile"], cwd=COQ, timeout=120)
-        if rc != 0:
-            return False, out + err
-    rc, out, err, dt = sh(["make", f"-j{jobs}"] + list(targets or []), cwd=COQ, timeout=timeout)
+    with coq_lock():
+        if not os.path.exists(os.path.join(COQ, "Makefile")) or \
+                os.path.getmtime(os.path.join(COQ, "Makefile")) < os.path.getmtime(os.path.join(COQ, "_CoqProject")):
+            rc, out, err, _ = sh(["coq_makefile", "-f", "_CoqProject", "-o", "Makefile"], cwd=COQ, timeout=120)
+            if rc != 0:
+                return False, out + err
+        rc, out, err, dt = sh(["make", f"-j{jobs}"] + list(targets or []), cwd=COQ, timeout=timeout)
+        if rc != 0 and "inconsistent assumptions" in (out + err):
+            # compiled libraries left behind by an interrupted or overlapping build: their time stamps
+            # look current, so make keeps them; rebuild from the sources once
+            for root, _, files in os.walk(COQ):
+                for f in files:
+                    if f.endswith((".vo", ".vok", ".vos", ".glob")):
+                        os.remove(os.path.join(root, f))
+            rc, out, err, dt = sh(["make", f"-j{jobs}"] + list(targets or []), cwd=COQ, timeout=timeout)
     return rc == 0, (out + err)
 
 
@@ -225,9 +257,10 @@ def coq_check_property_file(pid, timeout=1800):
     for f in (path + "o", path[:-2] + ".glob"):
         if os.path.exists(f):
             os.remove(f)
-    rc, out, err, dt = sh(["coqc", "-Q", ".", "V", "-w",
-                           "-notation-overridden,-deprecated-hint-without-locality",
-                           rel], cwd=COQ, timeout=timeout)
+    with coq_lock():
+        rc, out, err, dt = sh(["coqc", "-Q", ".", "V", "-w",
+                               "-notation-overridden,-deprecated-hint-without-locality",
+                               rel], cwd=COQ, timeout=timeout)
     res["wall_s"] = round(dt, 2)
     if rc != 0:
         res["errors"].append(f"coqc {rel} failed: " + (err or out)[-1500:])
@@ -301,8 +334,9 @@ def coq_eval(pid, shards, header, timeout=1500):
             return out, (err or out)[-1500:]
         return out, None
 
-    with concurrent.futures.ThreadPoolExecutor(max_workers=NCPU) as ex:
-        return list(ex.map(run, paths))
+    with coq_lock(shared=True):
+        with concurrent.futures.ThreadPoolExecutor(max_workers=NCPU) as ex:
+            return list(ex.map(run, paths))
 
 
 def balance_shards(items, size, nshards=None, budget=None, per_item=None):
